@@ -53,11 +53,15 @@ def _unpatch_io():
         setattr(IO, k, v)
 
 
-def _meta_case(n, rpc, H, L):
+def _meta_case(n, rpc, H, L, types=None, rtype=None):
+    """types: {record type code: prefix length} of a process that reads files of several record types; rtype: the type of THIS file"""
     size = 720 + n * L
     log = []
     f = SpanFile(size, log, tag="IMG")
     _patch_io(n, H, L)
+    if types is not None:
+        IO.record_preamble = Preamble(rtype)
+        IO.record_types = {k: RecStruct(h, L) for k, h in types.items()}
     try:
         header, md = IO.read_metadata(f, rpc)
     finally:
@@ -87,6 +91,21 @@ def meta_ok(H: int, L: int) -> bool:
     for n in NS:
         for rpc in RPCS:
             ok = ok & _meta_case(n, rpc, H, L)
+    return ok
+
+
+def meta_seq_ok(H1: int, H2: int, L: int) -> bool:
+    """
+    pre: 12 <= H1 < L and 12 <= H2 < L
+    post: _
+    """
+    # one process reads a file of record type 10 (prefix H1), then one of type 11 (prefix H2) with the SAME record length and line
+    # count, then type 10 again: every file is indexed with the prefix of its own record type (nothing remembered between files)
+    ok = True
+    types = {10: H1, 11: H2}
+    for n in NS:
+        for rpc in RPCS:
+            ok = ok & _meta_case(n, rpc, H1, L, types, 10) & _meta_case(n, rpc, H2, L, types, 11) & _meta_case(n, rpc, H1, L, types, 10)
     return ok
 
 
